@@ -4,7 +4,15 @@ _A = ["--watchdog", "60"]
 PROP = dict(
     harnesses={"c04_signal": dict(sources=["harness/c04_signal.cpp"])},
     legs=[
-        dict(name="random", harness="c04_signal", flavour="asan", mode="random", quick=2000, thorough=100000, args=_A, case_timeout=120),
+        dict(name="random", harness="c04_signal", flavour="asan", mode="random", quick=2000, thorough=100000, args=_A, case_timeout=120, concurrent=True),
+        dict(name="enum-depth5", harness="c04_signal", flavour="asan", mode="enum", quick=67228, thorough=0, args=_A + ["--depth", "5"], case_timeout=120,
+             scalable=False, exhaustive=True, concurrent=True),
+        dict(name="badsig", harness="c04_signal", flavour="asan", mode="badsig", quick=600, thorough=20000, args=_A, case_timeout=120,
+             seed_offset=104729, concurrent=True),
+        dict(name="disposition-matrix", harness="c04_signal", flavour="asan", mode="matrix", quick=320, thorough=320, args=["--watchdog", "0"],
+             case_timeout=120, scalable=False, exhaustive=True),
+        dict(name="tsan", harness="c04_signal", flavour="tsan", mode="random", quick=300, thorough=10000, args=_A + ["--only-raise", "1"], case_timeout=120,
+             seed_offset=7919, concurrent=True),
     ],
     rule="TODO",
     assumptions=[],
